@@ -234,7 +234,50 @@ impl<'tcx> Cx<'tcx> {
         }
         obj(&items)
     }
+    /// a constant of one of the analysed crate's own enum/struct types (directly or behind a reference, e.g. a promoted
+    /// `&ProtocolError::LibraryError(..)`), destructured into variant and fields instead of raw bytes
+    fn adt_const(&self, v: ConstValue, ty: Ty<'tcx>, depth: usize) -> Option<String> {
+        if depth > 4 {
+            return None;
+        }
+        let tcx = self.tcx;
+        match ty.kind() {
+            ty::Ref(_, inner, _) if matches!(inner.kind(), ty::Adt(..)) => {
+                if let ConstValue::Scalar(Scalar::Ptr(p, _)) = v {
+                    let (prov, off) = p.into_raw_parts();
+                    return self.adt_const(ConstValue::Indirect { alloc_id: prov.alloc_id(), offset: off }, *inner, depth + 1);
+                }
+                None
+            }
+            ty::Adt(def, _)
+                if (def.is_enum() || def.is_struct())
+                    && tcx.crate_name(def.did().krate).as_str() == "opaque_ke"
+                    && !ty.has_non_region_param() =>
+            {
+                let d = tcx.try_destructure_mir_constant_for_user_output(v, ty)?;
+                let vidx = d.variant.unwrap_or(rustc_abi::FIRST_VARIANT);
+                let vdef = def.variant(vidx);
+                let mut fs = vec![];
+                for (i, (fv, fty)) in d.fields.iter().enumerate() {
+                    let name = vdef.fields.iter().nth(i).map(|f| f.name.to_string()).unwrap_or(format!("{}", i));
+                    let mut items: Vec<(&str, String)> = vec![("ty", self.ty(*fty))];
+                    if let Some(a) = self.adt_const(*fv, *fty, depth + 1) {
+                        items.push(("adtc", a));
+                    } else {
+                        self.push_val(&mut items, *fv, *fty);
+                    }
+                    fs.push(obj(&[("name", esc(&name)), ("val", obj(&items))]));
+                }
+                Some(obj(&[("adt", esc(&self.dpath(def.did()))), ("variant", esc(vdef.name.as_str())), ("fields", arr(&fs))]))
+            }
+            _ => None,
+        }
+    }
     fn push_val(&self, items: &mut Vec<(&str, String)>, v: ConstValue, ty: Ty<'tcx>) {
+        if let Some(a) = self.adt_const(v, ty, 0) {
+            items.push(("adtc", a));
+            return;
+        }
         match v {
             ConstValue::Scalar(Scalar::Int(i)) => {
                 items.push(("int", esc(&format!("{}", i.to_bits_unchecked()))));
